@@ -147,3 +147,72 @@ def _subst_trace(x, old, new):
     if isinstance(x, list):
         return [_subst_trace(i, old, new) for i in x]
     return x
+
+
+# ----------------------------------------------------------------------------------------
+# guarded traces: flatten choices into (condition, event); conditions over truth atoms
+
+
+def truth_of(term):
+    """z3 Bool for the truth value of a value term (Language Reference 6.11 / 4.1)"""
+    if isinstance(term, tuple) and term:
+        k = term[0]
+        if k == "const":
+            v = term[1]
+            if z3.is_expr(v):
+                return v != 0
+            if isinstance(v, tuple):
+                return z3.Bool(f"truth:{term!r}")
+            return z3.BoolVal(bool(v))
+        if k == "boolop":
+            a, b = truth_of(term[2]), truth_of(term[3])
+            return z3.And(a, b) if term[1] == "and" else z3.Or(a, b)
+        if k == "unary" and term[1] == "Not":
+            return z3.Not(truth_of(term[2]))
+        if k == "ifexp":
+            return z3.If(truth_of(term[1]), truth_of(term[2]), truth_of(term[3]))
+        if k == "listdisp" or k == "tupledisp":
+            if len(term[1]) > 0 and not any(isinstance(x, tuple) and x and x[0] == "segvals" for x in term[1]):
+                return z3.BoolVal(True)
+    return z3.Bool(f"truth:{term!r}")
+
+
+def guarded(tr, cond=None):
+    cond = z3.BoolVal(True) if cond is None else cond
+    out = []
+    for e in tr:
+        if e[0] == "choice":
+            t = truth_of(e[1])
+            out.extend(guarded(e[2], z3.And(cond, t)))
+            out.extend(guarded(e[3], z3.And(cond, z3.Not(t))))
+        elif e[0] == "rep":
+            inner = guarded(e[4], cond)
+            out.append((cond, ("rep", e[1], e[2], e[3], tuple((z3.simplify(c_), ev) for c_, ev in inner))))
+        else:
+            out.append((cond, e))
+    return out
+
+
+def guarded_eq(c, got, want, why):
+    g = [(z3.simplify(cd), e) for cd, e in guarded(got)]
+    w = [(z3.simplify(cd), e) for cd, e in guarded(want)]
+    g = [x for x in g if not z3.is_false(x[0])]
+    w = [x for x in w if not z3.is_false(x[0])]
+    if len(g) != len(w):
+        why.append(f"{len(g)} guarded events vs {len(w)}")
+        return False
+    for (cg, eg), (cw, ew) in zip(g, w):
+        if eg[0] == "rep" and ew[0] == "rep":
+            ok = TL.term_eq(c, eg[1], ew[1]) and eg[3] == ew[3] and len(eg[4]) == len(ew[4]) and all(
+                TL.term_eq(c, a[1], b[1]) and c.valid(a[0] == b[0])[0] for a, b in zip(eg[4], ew[4]))
+            if not ok:
+                why.append(f"repetition differs: {eg!r} vs {ew!r}")
+                return False
+        elif not TL.term_eq(c, eg, ew):
+            why.append(f"event {eg!r} vs {ew!r}")
+            return False
+        ok, m = c.valid(cg == cw)
+        if not ok:
+            why.append(f"event {eg!r} runs under {cg} in the lowered form but under {cw} in Python (model {m})")
+            return False
+    return True
